@@ -527,6 +527,12 @@ namespace hs
                     live += 20;
                     break;
                 }
+                if (sut == "ll.new" && r.chance(1, 12))
+                {
+                    // operator new without memory, a std::new_handler that frees some / removes itself
+                    p.add("nh", {obj(), (long long)r.below(2), (long long)r.below(200), (long long)r.below(2)});
+                    break;
+                }
                 if (is_ll && r.chance(1, 15))
                 {
                     p.add("an", {obj(), fam, 0, (long long)r.pick({0, 0, 1, 2, 3, 4}), 1}, fault()); // size 0
